@@ -167,28 +167,6 @@ def gamete_const_log_pmf(allele_index, gamete_dose, gamete_ploidy, parent_dose, 
     return lprob
 
 
-def gamete_allele_log_pmf(gamete_count, gamete_ploidy, parent_count, parent_ploidy, gamete_lambda=0.0):
-    """Log probability of allele within a gamete drawn from a known genotype."""
-    assert gamete_count <= gamete_ploidy
-    assert parent_count <= parent_ploidy
-    if gamete_count < 1:
-        return -np.inf
-    if parent_count == 0:
-        return -np.inf
-    const_count = gamete_count - 1
-    const_ploidy = gamete_ploidy - 1
-    available_count = parent_count - const_count
-    available_total = parent_ploidy - const_ploidy
-    prob = available_count / available_total * (1 - gamete_lambda)
-    if gamete_lambda > 0.0:
-        if gamete_ploidy != 2:
-            raise ValueError('Lambda parameter is only supported for diploid gametes')
-        if const_count >= 1:
-            prob += const_count / const_ploidy * gamete_lambda
-    if prob == 0.0:
-        return -np.inf
-    else:
-        return np.log(prob)
 
 
 def trio_log_pmf(progeny, parent_p, parent_q, ploidy_p, ploidy_q, tau_p, tau_q, lambda_p, lambda_q, error_p, error_q, log_frequencies, dosage, dosage_p, dosage_q, gamete_p, gamete_q, constraint_p, constraint_q, dosage_log_frequencies):
@@ -510,3 +488,27 @@ def trio_allele_log_pmf(allele_index, progeny, parent_p, parent_q, ploidy_p, plo
     lprob = add_log_prob(lprob, lprob_pq)
     assert not np.isnan(lprob)
     return lprob
+
+
+def gamete_allele_log_pmf(gamete_count, gamete_ploidy, parent_count, parent_ploidy, gamete_lambda=0.0):
+    """Log probability of allele within a gamete drawn from a known genotype."""
+    assert gamete_count <= gamete_ploidy
+    assert parent_count <= parent_ploidy
+    if gamete_count < 1:
+        return -np.inf
+    if parent_count == 0:
+        return -np.inf
+    const_count = gamete_count - 1
+    const_ploidy = gamete_ploidy - 1
+    available_count = max(parent_count - const_count, 0)
+    available_total = parent_ploidy - const_ploidy
+    prob = available_count / available_total * (1 - gamete_lambda)
+    if gamete_lambda > 0.0:
+        if gamete_ploidy != 2:
+            raise ValueError('Lambda parameter is only supported for diploid gametes')
+        if const_count >= 1:
+            prob += const_count / const_ploidy * gamete_lambda
+    if prob == 0.0:
+        return -np.inf
+    else:
+        return np.log(prob)
